@@ -7,6 +7,7 @@ package main
 // path of the real collector; Start is then called with a recording controller.
 
 import (
+	"encoding/json"
 	"fmt"
 	"hash/fnv"
 	"io"
@@ -69,7 +70,10 @@ var plugins = []pluginDef{
 		`{"key":["a.b","service"],"fields":["message","level"],"limit":1,"action":"remove_fields","metric_prefix":"x"}`,
 		`{"key":["service"],"fields":["message"],"ttl":"1s"}`,
 		// two key selectors that map to the same metric label name (a.b and a_b -> "a_b")
-		`{"key":["a.b","a_b"],"fields":["level"],"limit":5}`}, ""},
+		`{"key":["a.b","a_b"],"fields":["level"],"limit":5}`,
+		// ttl within reach of the clock directive (2 ms) of the cardinality-ttl stream; "0s": everything older than now expires
+		`{"key":["service"],"fields":["level"],"limit":1,"ttl":"1s","action":"discard"}`,
+		`{"key":["service"],"fields":["message","level"],"limit":2,"ttl":"0s","action":"remove_fields"}`}, ""},
 	3: {"convert_date", []string{`{}`,
 		`{"field":"time","source_formats":["rfc3339nano","rfc3339","unixtime"],"target_format":"rfc3339","remove_on_fail":true}`,
 		`{"field":"a.b","source_formats":["2006-01-02","unixtimemilli","ansic"],"target_format":"unixtimenano"}`,
@@ -101,7 +105,9 @@ var plugins = []pluginDef{
 		`{"fields":[{"field":"message","format":"no"}],"result_field":"hash"}`,
 		`{"fields":[{"field":"a.b","format":"no","max_size":3},{"field":"message","format":"normalize","max_size":40}],"result_field":"a.hash"}`,
 		`{"fields":[{"field":"log","format":"normalize"}],"result_field":"hash","normalizer":{"builtin_patterns":"curly_bracketed|square_bracketed|parenthesized|double_quoted|single_quoted|grave_quoted"}}`,
-		`{"fields":[{"field":"log","format":"normalize"},{"field":"message","format":"normalize"}],"result_field":"message","normalizer":{"builtin_patterns":"int|uuid|double_quoted","custom_patterns":[{"placeholder":"<date>","re":"\\d\\d\\.\\d\\d\\.\\d\\d\\d\\d","priority":"last"},{"placeholder":"<nginx_datetime>","re":"\\d\\d\\d\\d/\\d\\d/\\d\\d\\ \\d\\d:\\d\\d:\\d\\d","priority":"first"}]}}`}, "C13"},
+		`{"fields":[{"field":"log","format":"normalize"},{"field":"message","format":"normalize"}],"result_field":"message","normalizer":{"builtin_patterns":"int|uuid|double_quoted","custom_patterns":[{"placeholder":"<date>","re":"\\d\\d\\.\\d\\d\\.\\d\\d\\d\\d","priority":"last"},{"placeholder":"<nginx_datetime>","re":"\\d\\d\\d\\d/\\d\\d/\\d\\d\\ \\d\\d:\\d\\d:\\d\\d","priority":"first"}]}}`,
+		// every built-in pattern and no max_size: the fixed-length tokens (uuid, md5 / sha1 / sha256) can match
+		`{"fields":[{"field":"message","format":"normalize"},{"field":"log","format":"normalize"}],"result_field":"hash"}`}, "C13"},
 	11: {"join", []string{
 		`{"field":"log","start":"/^(panic:)|(http: panic serving)/","continue":"/(^\\s*$)|(goroutine [0-9]+ \\[)|(\\([0-9]+x[0-9,a-f]+)|(\\.go:[0-9]+ \\+[0-9]x)|(\\/.*\\.go:[0-9]+)|(\\(...\\))|(main\\.main\\(\\))|(created by .*\\/.*\\.)|(^\\[signal)|(panic.+[0-9]x[0-9,a-f]+)|(panic:)/"}`,
 		`{"field":"log","start":"/^a/","continue":"/^b/","max_event_size":10}`,
@@ -134,7 +140,12 @@ var plugins = []pluginDef{
 		`{"message":"${message|trim(\"right\",\"\\n\")}"}`,
 		`{"message":"${message|trim_to(\"left\",\"{\")|trim_to(\"right\",\"}\")}"}`,
 		`{"a.c":"${message|cut(\"first\",10)}$$","b":"${log|cut(\"last\",5)|trim(\"all\",\" x\")}"}`,
-		`{"message":"${message|re(\"(a)?(b)?\",-1,[2,1],\"\")|cut(\"first\",3)}-${a.b|trim_to(\"all\",\"ab\")}"}`}, "C13"},
+		`{"message":"${message|re(\"(a)?(b)?\",-1,[2,1],\"\")|cut(\"first\",3)}-${a.b|trim_to(\"all\",\"ab\")}"}`,
+		// re behind cut("last") / trim: its dst is a tail sub-slice of the field buffer with reduced capacity,
+		// and the nested groups make the result longer than the source (regex_filter.go: cap(dst) < len(r.buf))
+		`{"x":"${message|cut(\"last\",2)|re(\"((.)(.)?)\",-1,[1,2,3],\"\")}","y":"${log|trim(\"left\",\" xab\")|re(\"(\\\\w)(\\\\w)?\",-1,[2,1],\"+\")}"}`,
+		// several re filters in one instance: they all share the one 1024-byte filtersBuf of modify.Start
+		`{"x":"${message|re(\"(\\\\w+)\",-1,[1],\" \")}-${log|re(\"(\\\\d+)(\\\\D)?\",2,[2,1],\"\")}","y":"${level|trim(\"all\",\" \")|re(\"(a)|(b)\",-1,[2,1],\",\",true)|re(\"((.*))\",1,[1,2],\"\")}"}`}, "C13"},
 	19: {"move", []string{
 		`{"fields":["a","message"],"mode":"allow","target":"t"}`,
 		`{"fields":["level","log"],"mode":"block","target":"t"}`,
@@ -194,10 +205,17 @@ type fatalHook struct{}
 
 // fatalMsg: set by the hook right before it panics, so that the driver tells a Fatal (process exit
 // in the real collector) from a run-time panic without disturbing hx.Catch's panic-site capture
-var fatalMsg string
+// (behind a mutex: the twin streams run two chains on two goroutines)
+var (
+	fatalMu  sync.Mutex
+	fatalMsg string
+)
+
+func setFatal(s string) { fatalMu.Lock(); fatalMsg = s; fatalMu.Unlock() }
+func getFatal() string  { fatalMu.Lock(); defer fatalMu.Unlock(); return fatalMsg }
 
 func (fatalHook) OnWrite(ce *zapcore.CheckedEntry, _ []zapcore.Field) {
-	fatalMsg = ce.Message
+	setFatal(ce.Message)
 	panic(fatalMark{ce.Message})
 }
 
@@ -230,9 +248,21 @@ func k8sMeta() {
 
 var instSeq int
 
-// newInstance builds one plugin instance through the collector's own validation path.
-// err != "" : the configuration was rejected (by GetConfig or by a Fatal in Start).
-func newInstance(typ string, cfgJSON []byte, st *pipeline.Settings, ctl pipeline.ActionPluginController, index int) (p pipeline.ActionPlugin, err string) {
+// pluginSpec: everything the processors of ONE pipeline share for one action of the chain: the parsed
+// config object (fd.setupAction calls GetConfig once and hands the same object to every processor's
+// Start), the pipeline name, the action index and the metric controller.
+type pluginSpec struct {
+	typ    string
+	info   *pipeline.PluginStaticInfo
+	conf   pipeline.AnyConfig
+	name   string
+	index  int
+	st     *pipeline.Settings
+	metric *metric.Ctl
+}
+
+// newSpec runs the collector's own validation path (GetConfig = cfg.DecodeConfig + cfg.Parse).
+func newSpec(typ string, cfgJSON []byte, st *pipeline.Settings, index int) (*pluginSpec, string) {
 	info, e := fd.DefaultPluginRegistry.GetActionByType(typ)
 	if e != nil {
 		return nil, "unknown action type " + typ
@@ -251,22 +281,36 @@ func newInstance(typ string, cfgJSON []byte, st *pipeline.Settings, ctl pipeline
 	// between the instances of one configuration, as the processors of one pipeline do.
 	name := fmt.Sprintf("verif_c13_%d", instSeq)
 	if typ == "hash" {
+		// (the key is what the normaliser is built from: configurations that differ only in their field
+		// lists share one, as the cache of hash.Start does for one pipeline name + index)
+		var c struct {
+			Normalizer any `json:"normalizer"`
+		}
+		_ = json.Unmarshal(cfgJSON, &c)
+		nb, _ := json.Marshal(c.Normalizer)
 		h := fnv.New64a()
-		h.Write(cfgJSON)
+		h.Write(nb)
 		name = fmt.Sprintf("verif_c13_hash_%x", h.Sum64())
 		index = 0
 	}
+	return &pluginSpec{typ: typ, info: info, conf: conf, name: name, index: index, st: st,
+		metric: metric.NewCtl("verif", prometheus.NewRegistry(), time.Minute, 0)}, ""
+}
+
+// start builds one plugin instance of the spec (one per processor) and calls its Start.
+// err != "" : the configuration was rejected by a Fatal in Start.
+func (sp *pluginSpec) start(ctl pipeline.ActionPluginController) (p pipeline.ActionPlugin, err string) {
 	params := &pipeline.ActionPluginParams{
 		PluginDefaultParams: pipeline.PluginDefaultParams{
-			PipelineName:     name,
-			PipelineSettings: st,
-			MetricCtl:        metric.NewCtl("verif", prometheus.NewRegistry(), time.Minute, 0),
+			PipelineName:     sp.name,
+			PipelineSettings: sp.st,
+			MetricCtl:        sp.metric,
 		},
 		Controller: ctl,
 		Logger:     theLogger,
-		Index:      index,
+		Index:      sp.index,
 	}
-	pl, _ := info.Factory()
+	pl, _ := sp.info.Factory()
 	ap, ok := pl.(pipeline.ActionPlugin)
 	if !ok {
 		return nil, "not an action plugin"
@@ -281,10 +325,20 @@ func newInstance(typ string, cfgJSON []byte, st *pipeline.Settings, ctl pipeline
 				}
 			}
 		}()
-		ap.Start(conf, params)
+		ap.Start(sp.conf, params)
 	}()
 	if err != "" {
 		return nil, err
 	}
 	return ap, ""
+}
+
+// newInstance builds one plugin instance through the collector's own validation path.
+// err != "" : the configuration was rejected (by GetConfig or by a Fatal in Start).
+func newInstance(typ string, cfgJSON []byte, st *pipeline.Settings, ctl pipeline.ActionPluginController, index int) (p pipeline.ActionPlugin, err string) {
+	sp, err := newSpec(typ, cfgJSON, st, index)
+	if err != "" {
+		return nil, err
+	}
+	return sp.start(ctl)
 }
